@@ -1071,6 +1071,120 @@ func destMayCredit(d *nsx.Dest, acc string) bool {
 	return false
 }
 
+// portionSpellings (C03: "a send moves exactly what it says"): the fraction a portion literal or variable DENOTES is
+// decided by its text; the model receives portions already parsed by the real parser, so that parser is checked here
+// against an independent reading of the text: d.ddd% = digits / 10^(fraction digits) / 100, n/d = n/d.
+func portionSpellings(r *vx.Run) {
+	pct := []string{"0%", "1%", "50%", "100%", "12.5%", "2.05%", "10.01%", "0.05%", "1.005%", "00.50%", "99.999%", "33.333333333333333333%", "0.0%", "7.10%", "100.0%", "100.01%", "250%"}
+	frac := []string{"1/2", "1/3", "3/7", "0/1", "7/7", "2/4", "10/100", "3/2", "1/0", "007/14", "1 / 2", "1 /2", "123456789012345678901234567890/246913578024691357802469135780"}
+	for _, sp := range append(pct, frac...) {
+		var want *big.Rat
+		if strings.HasSuffix(sp, "%") {
+			body := strings.TrimSuffix(sp, "%")
+			ip, fp, _ := strings.Cut(body, ".")
+			num, ok := new(big.Int).SetString(ip+fp, 10)
+			if ok {
+				den := new(big.Int).Exp(big.NewInt(10), big.NewInt(int64(len(fp)+2)), nil)
+				want = new(big.Rat).SetFrac(num, den)
+			}
+		} else {
+			parts := strings.Split(strings.ReplaceAll(sp, " ", ""), "/")
+			n, ok1 := new(big.Int).SetString(parts[0], 10)
+			d, ok2 := new(big.Int).SetString(parts[1], 10)
+			if ok1 && ok2 && d.Sign() != 0 {
+				want = new(big.Rat).SetFrac(n, d)
+			}
+		}
+		in := map[string]any{"portion": sp}
+		var got *machine.Portion
+		var err error
+		pan := ""
+		func() {
+			defer func() {
+				if x := recover(); x != nil {
+					pan = fmt.Sprint(x)
+				}
+			}()
+			got, err = machine.ParsePortionSpecific(sp)
+		}()
+		valid := want != nil && want.Sign() >= 0 && want.Cmp(big.NewRat(1, 1)) <= 0
+		switch {
+		case pan != "":
+			r.FailP("C12", "panic:parse-portion", in, pan, len(sp))
+		case valid && (err != nil || got == nil || got.Specific == nil):
+			r.FailP("C03", "portion-text-refused", in, fmt.Sprint(err), len(sp))
+		case valid && got.Specific.Cmp(want) != 0:
+			r.FailP("C03", "portion-text-read-as-another-fraction", in, fmt.Sprintf("%q denotes %s, the parser reads %s", sp, want.RatString(), got.Specific.RatString()), len(sp))
+		case !valid && err == nil && got != nil && got.Specific != nil && (want == nil || got.Specific.Cmp(want) != 0 || got.Specific.Cmp(big.NewRat(1, 1)) > 0):
+			r.FailP("C03", "portion-text-outside-0-1-accepted", in, got.Specific.RatString(), len(sp))
+		}
+		r.Count("portion-spelling")
+	}
+}
+
+// valueSpellings: the same for the other variable types whose text denotes a number: the model receives variable
+// values already parsed by the real `NewValueFromString` (glue), so what that parser reads is checked here against the
+// text: a monetary is `<asset> <decimal digits>`, a number is decimal digits; an account / asset / string is its text.
+func valueSpellings(r *vx.Run) {
+	digits := []string{"0", "7", "100", "0100", "007", "08", "00", "18446744073709551616", "18446744073709551617", "340282366920938463463374607431768211457", "1000000000000000000000000000000"}
+	for _, d := range digits {
+		want, _ := new(big.Int).SetString(d, 10)
+		for _, typ := range []string{"monetary", "number"} {
+			text, mt := "USD "+d, machine.TypeMonetary
+			if typ == "number" {
+				text, mt = d, machine.TypeNumber
+			}
+			in := map[string]any{"type": typ, "text": text}
+			var v machine.Value
+			var err error
+			pan := ""
+			func() {
+				defer func() {
+					if x := recover(); x != nil {
+						pan = fmt.Sprint(x)
+					}
+				}()
+				v, err = machine.NewValueFromString(mt, text)
+			}()
+			if pan != "" {
+				r.FailP("C12", "panic:parse-"+typ, in, pan, len(text))
+				continue
+			}
+			if err != nil {
+				// leading zeros: JSON numbers do not allow them (number); a monetary amount is plain digits
+				if typ == "monetary" || !(len(d) > 1 && d[0] == '0') {
+					r.FailP("C03", "value-text-refused:"+typ, in, err.Error(), len(text))
+				}
+				continue
+			}
+			var got *big.Int
+			switch x := v.(type) {
+			case machine.Monetary:
+				got = (*big.Int)(x.Amount)
+				if string(x.Asset) != "USD" {
+					r.FailP("C03", "value-text-read-as-another-value:monetary-asset", in, string(x.Asset), len(text))
+				}
+			case *machine.MonetaryInt:
+				got = (*big.Int)(x)
+			}
+			if got == nil || got.Cmp(want) != 0 {
+				r.FailP("C03", "value-text-read-as-another-value:"+typ, in, fmt.Sprintf("%q denotes %s, the parser reads %v", text, want, got), len(text))
+			}
+			r.Count("value-spelling")
+		}
+	}
+	for _, text := range []string{"a", "a:b", "world", "World", "users:001:wallet", "x_y", "A-1"} {
+		if v, err := machine.NewValueFromString(machine.TypeAccount, text); err == nil && string(v.(machine.AccountAddress)) != text {
+			r.FailP("C03", "value-text-read-as-another-value:account", map[string]any{"text": text}, fmt.Sprint(v), len(text))
+		}
+	}
+	for _, text := range []string{"USD", "EUR/2", "COIN", "BTC/8"} {
+		if v, err := machine.NewValueFromString(machine.TypeAsset, text); err != nil || string(v.(machine.Asset)) != text {
+			r.FailP("C03", "value-text-read-as-another-value:asset", map[string]any{"text": text}, fmt.Sprint(v, err), len(text))
+		}
+	}
+}
+
 type firstOb struct {
 	in nsx.Input
 	ob runObs
@@ -1434,6 +1548,8 @@ func main() {
 		r.Count("malformed:" + ob.Stage)
 		r.Case("", in, in.Script, false)
 	}
+	portionSpellings(r)
+	valueSpellings(r)
 	fam := boundaryFamily()
 	for i, in := range fam {
 		// quick tier: a seeded third of the family; thorough: all of it
